@@ -99,11 +99,31 @@ def run(ctx):
         cf = P.fn(cname)
         cx = FlowCx(P, cf)
         per = {}
+        sibling = []
         for bi, t in cf.calls():
             if callee_name(t) == cf.id:
-                for x in cx.facts_at(bi):
+                facts = cx.facts_at(bi)
+                vs = [x[2] for x in facts if x[0] == "variant" and x[1].endswith("LogicalExpression")]
+                for v_ in vs:
+                    per[v_] = per.get(v_, 0) + 1
+                # the visit of a child must not hinge on a *sibling* field of the same expression (`if operand.is_none()
+                # { visit(when) }`): the child is then skipped for some shapes of the expression
+                argf = {x for x in cx.tags(t["args"][0]) if x.startswith("cell:") and any(x.startswith("cell:%s." % v_) for v_ in vs)}
+                for x in facts:
                     if x[0] == "variant" and x[1].endswith("LogicalExpression"):
-                        per[x[2]] = per.get(x[2], 0) + 1
+                        continue
+                    sets = [a for a in x[2:4] if isinstance(a, (set, frozenset))] + \
+                           [a for a in (x[3] if x[0] == "call" and isinstance(x[3], list) else []) if isinstance(a, (set, frozenset))]
+                    if any(y.startswith("call:") and y.endswith("::next") for a in sets for y in a):
+                        continue      # the exit edge of a loop over a sibling list, not a condition
+                    ff = {y for a in sets for y in a if y.startswith("cell:") and any(y.startswith("cell:%s." % v_) for v_ in vs)}
+                    if argf and ff and not (ff & argf):
+                        sibling.append((vs[0] if vs else "?", sorted(ff)[0], sorted(argf)[0], t["line"]))
+        for (v_, cond_f, arg_f, ln_) in sibling:
+            ctx.ob("R5", "%s#%s-unconditional" % (cname.split("::")[-1], v_), False,
+                   what="%s visits %s of LogicalExpression::%s only under a condition on its sibling %s: for the other shapes of the "
+                        "expression the variables used there are missing from the scope tests" % (cname, arg_f[5:], v_, cond_f[5:]),
+                   where=cf.loc(ln_))
         nv = 0
         for v in le["variants"]:
             need = sum(1 for fl in v["fields"] if "LogicalExpression" in fl[1])
